@@ -298,6 +298,37 @@ def _buffer_name_in(s, x, nw):
     return False
 
 
+def rule_cachekey(ctx):
+    """The cached Gram matrices are reused only for the projection they were computed for."""
+    R = "C19.CACHEKEY"
+    f = ctx.program.func("separation.bss_eval_images", R)
+    s = ctx.S.get(f.qual)
+    calls = [c for c in s.calls() if c.callee == "separation._bss_decomp_mtifilt_images" and len(c.args) >= 6]
+    need(len(calls) == 1, R, "bss_eval_images: cached decomposition call not found")
+    c = calls[0]
+    j, gj, g = c.args[2], c.args[4], c.args[5]
+    per_source = gj.op == "sub" and gj.a[1] is j and j.op == "iter"
+    yield ob(R, f, "separation.bss_eval_images:per-source-cache", per_source, "the single-source Gram matrix passed for source j is the cache entry of that same j (Gj[j])", node=c.node)
+    # ... and the returned matrix is stored back under the same j
+    st = [m for m in s.by_kind("mutate") if m.how == "setitem" and m.root is not None and m.key is j and m.val.op == "sub" and m.val.a[0] is c.term and tm.is_const(m.val.a[1], 4)]
+    yield ob(R, f, "separation.bss_eval_images:cache-store", len(st) == 1, "the matrix returned for source j is stored as Gj[j]")
+    shared = g.op in ("loopvar", "loop", "call", "sub") and not (g.op == "sub" and g.a[1] is j)
+    yield ob(R, f, "separation.bss_eval_images:shared-all-sources-cache", shared, "the all-sources Gram matrix G does not depend on j and is carried through the loop")
+    d = ctx.program.func("separation._bss_decomp_mtifilt_images", R)
+    sd = ctx.S.get(d.qual)
+    pj = [x for x in sd.calls() if x.callee == "separation._project_images" and len(x.args) == 4]
+    good = len(pj) == 2
+    if good:
+        single = [x for x in pj if x.args[0].op == "sub"]
+        allsrc = [x for x in pj if x.args[0].op == "param"]
+        good = len(single) == 1 and len(allsrc) == 1 and single[0].args[3].op == "param" and single[0].args[3].a[0] == "Gj" and allsrc[0].args[3].op in ("param",) and allsrc[0].args[3].a[0] == "G"
+    yield ob(R, d, "separation._bss_decomp_mtifilt_images:cache-roles", good, "Gj is used with the projection on source j alone, G with the projection on all sources")
+    pi = ctx.program.func("separation._project_images", R)
+    sp = ctx.S.get(pi.qual)
+    recompute = any(any(call_name(z) == "np.all" for z in tm.walk(cnd)) and p for m in sp.by_kind("mutate") if m.root == "G" for cnd, p in symeval.pc_conds(m.pc))
+    yield ob(R, pi, "separation._project_images:recompute-iff-zero", recompute, "a passed-in G is recomputed only when it is all zeros (the 'not yet computed' marker)")
+
+
 def rule_silent(ctx):
     R = "C19.SILENT"
     f = ctx.program.func("separation.validate", R)
@@ -330,4 +361,5 @@ RULES = [
     ("C19.FRAMECALL", 12, rule_framecall),
     ("C19.PERMEXH", 8, rule_permexh),
     ("C19.SILENT", 7, rule_silent),
+    ("C19.CACHEKEY", 5, rule_cachekey),
 ]
